@@ -179,6 +179,9 @@ Fixpoint set_data_t (p : positive) (d' : rdata) (t : tree) : tree :=
   end.
 Definition set_data (p : positive) (d' : rdata) (F : forest) : forest := set_data_t p d' <$> F.
 
+(** insertion before position [k] *)
+Definition insert_at {A} (k : nat) (a : A) (l : list A) : list A := take k l ++ a :: drop k l.
+
 (** position of id [x] in a list of ids *)
 Fixpoint index_of (x : positive) (l : list positive) : option nat :=
   match l with
